@@ -25,14 +25,30 @@ Definition order_shape : option bool :=
           && (mem "Keys" graph_merge_calls || mem "All" graph_merge_calls) then Some true
   else None.
 
+(* graph.Merge processes the vertices in the reverse of a topological order.  The model abstracts
+   ast.Var.Dir, which Vars.Merge stamps IN PLACE into the variables of the included Taskfile for a
+   long-form include; which copy a short-form include of the same file then receives depends on the
+   processing order.  That abstraction preserves determinism only if the order is a function of the
+   graph: graph.StableTopologicalSort, not graph.TopologicalSort (which ranges over Go maps). *)
+Definition sort_stable : bool :=
+  mem "StableTopologicalSort" graph_merge_calls && negb (mem "TopologicalSort" graph_merge_calls).
+
+(* Vars.Merge: the repaired code stamps include.Dir on a local copy of the variable and stores the copy;
+   the former code assigned to pair.Value.Dir, i.e. to the variable of the included Taskfile *)
+Definition inplace_shape : option bool :=
+  if String.eqb vars_merge_dir_inplace "false" then Some false
+  else if String.eqb vars_merge_dir_inplace "true" then Some true
+  else None.
+
 Definition variant_known : bool :=
-  match rootref_shape, order_shape with Some _, Some _ => true | _, _ => false end
+  match rootref_shape, order_shape, inplace_shape with Some _, Some _, Some _ => true | _, _, _ => false end
   && (mem "TopologicalSort" graph_merge_calls || mem "StableTopologicalSort" graph_merge_calls).
 
 Definition current_variant : variant :=
   {| v_task_dc := task_deepcopy_fields; v_cmd_dc := cmd_deepcopy_fields; v_dep_dc := dep_deepcopy_fields;
      v_keep_rootref := match rootref_shape with Some b => b | None => false end;
-     v_declared := match order_shape with Some b => b | None => false end |}.
+     v_declared := match order_shape with Some b => b | None => false end;
+     v_inplace := match inplace_shape with Some b => b | None => true end |}.
 
 (* fields of ast.Task / Cmd / Dep that DeepCopy does not assign, and fields the compiled task does not carry *)
 Definition missing (all some : list string) : list string := filter (fun f => negb (mem f some)) all.
@@ -48,7 +64,8 @@ Inductive robs := RGraph (vs : list string) (es : list (string * string * list s
 Inductive sobs := STable (f : file) (compiled : list string) | SErr (e : err) | SOther (msg : string).
 Record eobs := { e_name : string; e_ok : bool; e_lines : list (string * string * string * string) }.
 
-Record mcase := { mc_fs : fsys; mc_root : string; mc_read : robs; mc_loads : list sobs; mc_execs : list eobs }.
+Record mcase := { mc_fs : fsys; mc_root : string; mc_read : robs; mc_loads : list sobs; mc_execs : list eobs;
+                  mc_twin : list (list string) }.
 
 Fixpoint number {A} (i : nat) (l : list A) : list (nat * A) :=
   match l with [] => [] | x :: r => (i, x) :: number (S i) r end.
@@ -178,8 +195,8 @@ Fixpoint expected_ids (fuel : nat) (g : graph) (os : list origin) (o : origin) :
         (refs_of (o_task o)) (Some [marker_id o])
   end.
 
-Definition strip_v (s : string) : string :=
-  match s with String "v"%char (String "="%char r) => r | _ => s end.
+Definition strip_v (s0 : string) : string :=
+  match var_value s0 with String "v"%char (String "="%char r) => r | s => s end.
 Definition var_printed (vs : vars) (k : string) : string :=
   match lookup k vs with Some s => strip_v s | None => "" end.
 
@@ -232,4 +249,16 @@ Definition mon_c09_stable (c : mcase) : bool :=
                             end) rest
       | _ => true
       end
+  end.
+
+(* C08 / C09: what an included task sees does not depend on the NAMES of sibling Taskfiles.  mc_twin holds,
+   for the tree and for the same tree with one including file renamed (app.yml <-> zapp.yml, which flips
+   the order in which graph.Merge processes the siblings), the digest of the load with that name
+   normalised: the directory stamped on every global / IncludedTaskfileVars variable and the value every
+   dynamic (sh:) variable evaluates to in every task.  All digests must be equal: the directory given by
+   one include path must not reach the variables of another include of the same file. *)
+Definition mon_vardir (c : mcase) : bool :=
+  match mc_twin c with
+  | [] => true
+  | d0 :: rest => forallb (fun d => list_eqb String.eqb d0 d) rest
   end.
